@@ -106,4 +106,46 @@ def decodeMeta (s : Str) : Except Err Meta := (splitOn semicolon s).foldl decode
 /-- what the reader needs from the table of forbidden characters: both separators and both line breaks -/
 def TableOk (forb : List Nat) : Bool := forb.contains semicolon && forb.contains equals && forb.contains 10 && forb.contains 13
 
+/-! ### file framing of `to_csv` / `from_csv`
+
+`to_csv` writes a title comment, the metadata comment and then whatever `csv.DictWriter` produces (the header row
+`term_a,term_b,ic_mica` first); `from_csv` iterates over the PHYSICAL lines of the text (terminators included), keeps the
+leading lines that begin with `#` as header and hands every other line to `csv.DictReader`. A physical line is never
+empty (it holds at least its terminator, or it is the unterminated non-empty tail of the text). -/
+
+def hash : Nat := 35
+def lf : Nat := 10
+def cr : Nat := 13
+
+/-- `row[0] == '#'` -/
+def isComment : Str → Bool
+  | c :: _ => c == hash
+  | [] => false
+
+/-- the physical lines of the text written by `to_csv`; `body` = the lines written through the csv writer -/
+def frame (title metaLine : Str) (body : List Str) : List Str :=
+  (hash :: title ++ [lf]) :: (hash :: metaLine ++ [lf]) :: body
+
+/-- `filter(store_header, handle)`: `(header, lines passed on to the csv reader)`; the flag is `in_header` -/
+def unframeAux : Bool → List Str → List Str × List Str
+  | _, [] => ([], [])
+  | true, l :: ls =>
+    if isComment l then ((unframeAux true ls).1.cons l, (unframeAux true ls).2)
+    else ((unframeAux false ls).1, l :: (unframeAux false ls).2)
+  | false, l :: ls => ((unframeAux false ls).1, l :: (unframeAux false ls).2)
+
+def unframe (ls : List Str) : List Str × List Str := unframeAux true ls
+
+/-- Python `s.rstrip('\r\n')` -/
+def rstripNl (s : Str) : Str := (s.reverse.dropWhile (fun c => c == lf || c == cr)).reverse
+
+/-- `SimilarityContainer._parse_meta` -/
+def parseMeta (header : List Str) : Except Err Meta :=
+  match header with
+  | _ :: h1 :: _ => if h1.length < 2 then .ok [] else decodeMeta (rstripNl (h1.drop 1))
+  | _ => .ok []
+
+/-- the key under which `to_csv` stamps the time of writing: `created` -/
+def createdKey : Str := [99, 114, 101, 97, 116, 101, 100]
+
 end Hpv.Sim
